@@ -154,6 +154,12 @@ impl RK4 {
                 last = true;
             }
 
+            // A step below one ulp of x does not advance x: no number of steps reaches xend
+            if !last && x + h == x {
+                status = Status::StepSizeTooSmall;
+                break;
+            }
+
             // Stage computations
             for i in 0..n {
                 yt[i] = y[i] + h * A21 * k1[i];
